@@ -418,14 +418,14 @@ fn exec_buf<P: Px>(c: &BCase, stats: &mut Stats, viols: &mut Vec<Viol>) {
             5 => {
                 let copy = px.clone();
                 match TypedImage::<P>::from_pixels_slice(c.w, c.h, &mut px) {
-                    Ok(img) => Ok((img.width(), img.height(), rows_bits(&img, &copy))),
+                    Ok(mut img) => Ok((img.width(), img.height(), { let mut r = rows_bits(&img, &copy); r.extend(rows_mut_count(&mut img)); r })),
                     Err(e) => Err(format!("{:?}", e)),
                 }
             }
             6 => {
                 let copy = px.clone();
                 match TypedImage::<P>::from_pixels(c.w, c.h, px) {
-                    Ok(img) => Ok((img.width(), img.height(), rows_bits(&img, &copy))),
+                    Ok(mut img) => Ok((img.width(), img.height(), { let mut r = rows_bits(&img, &copy); r.extend(rows_mut_count(&mut img)); r })),
                     Err(e) => Err(format!("{:?}", e)),
                 }
             }
@@ -474,7 +474,7 @@ fn exec_buf<P: Px>(c: &BCase, stats: &mut Stats, viols: &mut Vec<Viol>) {
                 Err(e) => Err(format!("{:?}", e)),
             },
             3 => match TypedImage::<P>::from_buffer(c.w, c.h, bytes) {
-                Ok(img) => Ok((img.width(), img.height(), typed_rows(&img, &snapshot))),
+                Ok(mut img) => Ok((img.width(), img.height(), { let mut r = typed_rows(&img, &snapshot); r.extend(rows_mut_count(&mut img)); r })),
                 Err(e) => Err(format!("{:?}", e)),
             },
             _ => match TypedImageRef::<P>::from_buffer(c.w, c.h, bytes) {
@@ -533,6 +533,22 @@ fn rows_bits<P: Px, V: ImageView<Pixel = P>>(v: &V, px: &[P]) -> Vec<Vec<u8>> {
     }
     if w > 0 && n != h {
         return vec![format!("{} rows instead of {}", n, h).into_bytes()];
+    }
+    vec![]
+}
+
+/// the mutable row iterator must expose exactly `height` rows of `width` pixels too
+fn rows_mut_count<P: Px, V: fr::ImageViewMut<Pixel = P>>(v: &mut V) -> Vec<Vec<u8>> {
+    let (w, h) = (v.width() as usize, v.height() as usize);
+    let mut n = 0;
+    for row in v.iter_rows_mut(0) {
+        n += 1;
+        if row.len() != w {
+            return vec![format!("mutable row {} has {} pixels", n - 1, row.len()).into_bytes()];
+        }
+    }
+    if w > 0 && n != h {
+        return vec![format!("{} mutable rows instead of {}", n, h).into_bytes()];
     }
     vec![]
 }
